@@ -129,6 +129,7 @@ class Acc(object):
 # ---------------------------------------------------------------- shard
 def shard_main(pid, tier, seed, i, n):
     t0 = time.monotonic()
+    c0 = time.process_time()
     acc = Acc()
     cov = None
     try:
@@ -141,13 +142,17 @@ def shard_main(pid, tier, seed, i, n):
         simnet.selftest_patch_points()
         mod = importlib.import_module('vf.props.' + pid.lower())
         budget = float(os.environ.get('VERIF_SHARD_BUDGET_S', mod.BUDGET_S[tier]))
-        deadline = t0 + budget
+
+        def spent():
+            # the budget is work, not wall-clock time: on a loaded machine (other checks, other shards) a shard gets the
+            # same amount of processor time as on an idle one - up to four times the wall-clock time, then it stops
+            return max(time.process_time() - c0, (time.monotonic() - t0) / 4.0)
         if hasattr(mod, 'selftest') and i == 0:
             mod.selftest(acc)
         idx = -1
         truncated = False
         for idx, case in enumerate(mod.cases(tier, seed, i, n)):
-            if time.monotonic() > deadline:
+            if spent() > budget:
                 truncated = True
                 break
             if isinstance(case, dict) and case.get('kind') == '__mark__':
@@ -259,7 +264,7 @@ def parent_main(pid, tier, seed):
     env2['PYTHONHASHSEED'] = '0'
     env2['PYTHONPATH'] = VERIF_DIR
     env2.setdefault('LOMOND_VERIF', '1')
-    timeout = float(meta['BUDGET_S'][tier]) * 2.5 + 120
+    timeout = float(meta['BUDGET_S'][tier]) * 5.0 + 120
     procs = []
     for i in range(nsh):
         procs.append(subprocess.Popen(
